@@ -131,8 +131,9 @@ def MIXED_SUBST(sym):
     """written as found: SafeInt<Tn>(x) is the explicit range-checked converting constructor (contract vp_ctor); `SafeInt<Tn> y = x;` is
     copy-initialisation, which can only use the implicit SafeInt(T) constructor after a plain conversion of x to T; the operator between two
     SafeInt operands is vp_op"""
-    return [(r'SafeInt<T[12]>\((\w+)\)', r'vp_ctor(\1)', -1), (r'SafeInt<T[12]> (\w+) = (\w+);', r'T \1 = (T)(\2);', -1),
-            (r'return ([\w()]+) %s ([\w()]+);' % sym, r'return vp_op(\1, \2);', 1)]
+    return [(r'SafeInt<T[12]>\(', 'vp_ctor(', -1), (r'SafeInt<T[12]> (\w+) = (\w+);', r'T \1 = (T)(\2);', -1),
+            (r'return (\w+(?:\(\w+\))?) %s (\w+(?:\(\w+\))?);' % sym, r'return vp_op(\1, \2);', -1),      # when the body no longer has this shape it is kept as written
+            (r'\bval\((\w+)\)', r'(\1)', -1)]      # val(SafeInt<T>) is the stored T
 
 
 def mixed_harness(op, T, U, left):
